@@ -20,6 +20,11 @@ KIND = {0: "BASIC", 1: "DATA", 2: "MODULE", 3: "TEXT"}
 def gen_cases(rng, tier):
     n = scale(tier, 60, 1500)
     cases = [{"spec": gen_third_party(rng), "verbose": rng.random() < 0.5} for _ in range(n)]
+    for is_fd in (True, False):
+        full = {"name": "FULL", "ext": "DAT", "kind": 1, "flag": 0, "content": {"rand": 21, "len": 320280}}
+        edge = {"name": "EDGE", "ext": "", "kind": 2, "flag": 0, "content": {"rand": 22, "len": 318241}}
+        side = lambda f, order: {"files": [f], "deleted": 0, "extra_reserved": [], "filler": 0xE5, "fat0": 0, "fat_tail": 0, "order": order, "frag": False, "spread": True}
+        cases.append({"spec": {"is_fd": is_fd, "nsides": 4, "seed": 5, "sides": [side(full, "asc"), side(edge, "desc"), side(full, "random"), side(edge, "asc")]}, "verbose": is_fd})
     cases.append({"bundled": "fd", "verbose": True})
     cases.append({"bundled": "sd", "verbose": False})
     return cases, {"random": n, "bundled": 2}
